@@ -119,6 +119,9 @@ pub fn literal(sym: &str) -> Result<String, String> {
 #[derive(Serialize, Deserialize, Debug, PartialEq)] struct SeqN { w: Vec<u32> }
 #[derive(Serialize, Deserialize, Debug, PartialEq)] struct Seq2 { v: Vec<String>, w: Vec<u32> }
 #[derive(Serialize, Deserialize, Debug, PartialEq)] struct TupSeq { t: (u32, u32), w: Vec<u32> }
+// the same wire shape through serde's tuple-STRUCT entry points (serialize_tuple_struct / deserialize_tuple_struct)
+#[derive(Serialize, Deserialize, Debug, PartialEq)] struct P2(u32, u32);
+#[derive(Serialize, Deserialize, Debug, PartialEq)] struct TsSeq { t: P2, w: Vec<u32> }
 type Map = BTreeMap<String, String>;
 /// a string map that keeps the order in which its entries were inserted (what `indexmap`, a `HashMap` or a flattened map give the
 /// serializer: entries in an order that is not the order of the keys)
@@ -233,6 +236,10 @@ impl Cat for TupSeq {
     fn build(i: &In) -> Result<Self, String> { let t = u32s(i, "t")?; if t.len() != 2 { return Err("a tuple of two".into()) } Ok(TupSeq { t: (t[0], t[1]), w: u32s(i, "w")? }) }
     fn project(&self) -> Proj { vec![("t".into(), vec![self.t.0.to_string(), self.t.1.to_string()]), ("w".into(), self.w.iter().map(|x| x.to_string()).collect())] }
 }
+impl Cat for TsSeq {
+    fn build(i: &In) -> Result<Self, String> { let t = u32s(i, "t")?; if t.len() != 2 { return Err("a tuple of two".into()) } Ok(TsSeq { t: P2(t[0], t[1]), w: u32s(i, "w")? }) }
+    fn project(&self) -> Proj { vec![("t".into(), vec![self.t.0.to_string(), self.t.1.to_string()]), ("w".into(), self.w.iter().map(|x| x.to_string()).collect())] }
+}
 impl Cat for Map {
     fn build(i: &In) -> Result<Self, String> {
         let mut m = Map::new();
@@ -271,7 +278,7 @@ fn tool(msg: impl Into<String>) -> Value { json!({"kind": "tool-error", "msg": m
 macro_rules! dispatch { ($ty:expr, $f:ident ( $($a:expr),* )) => { match $ty {
     "Ints" => $f::<Ints>($($a),*), "Floats" => $f::<Floats>($($a),*), "Scal" => $f::<Scal>($($a),*), "Str1" => $f::<Str1>($($a),*),
     "Str2" => $f::<Str2>($($a),*), "Ch" => $f::<Ch>($($a),*), "Opt" => $f::<Opt>($($a),*), "OptEnd" => $f::<OptEnd>($($a),*),
-    "En" => $f::<En>($($a),*), "Nt" => $f::<Nt>($($a),*), "SeqS" => $f::<SeqS>($($a),*), "SeqN" => $f::<SeqN>($($a),*), "Seq2" => $f::<Seq2>($($a),*), "TupSeq" => $f::<TupSeq>($($a),*), "Map" => $f::<Map>($($a),*), "OMap" => $f::<OMap>($($a),*),
+    "En" => $f::<En>($($a),*), "Nt" => $f::<Nt>($($a),*), "SeqS" => $f::<SeqS>($($a),*), "SeqN" => $f::<SeqN>($($a),*), "Seq2" => $f::<Seq2>($($a),*), "TupSeq" => $f::<TupSeq>($($a),*), "TsSeq" => $f::<TsSeq>($($a),*), "Map" => $f::<Map>($($a),*), "OMap" => $f::<OMap>($($a),*),
     other => tool(format!("unknown type tag {other}")) } } }
 
 // ------------------------------------------------------------------ mode rt
@@ -402,6 +409,7 @@ const KINDS: &[(&str, &[(&str, &str)])] = &[
     ("SeqN", &[("w", "vecu32")]),
     ("Seq2", &[("v", "vecstr"), ("w", "vecu32")]),
     ("TupSeq", &[("t", "tup2u32"), ("w", "vecu32")]),
+    ("TsSeq", &[("t", "tup2u32"), ("w", "vecu32")]),
 ];
 fn rnd_int(rng: &mut Rng, kind: &str) -> String {
     let k = match kind { "ntu32" | "optu32" | "vecu32" | "tup2u32" => "u32", k => k };
